@@ -454,7 +454,11 @@ def simp(t):
 
 def okval(r):
     if r[0] == "ok_or":
-        return ("some", r[1])
+        x = r[1]
+        # `cond.then_some(v).ok_or(e)`: the payload, when there is one, is v
+        if x[0] == "call" and x[1].rsplit("::", 1)[-1] == "then_some" and "bool" in x[1] and len(x[2]) == 2:
+            return x[2][1]
+        return ("some", x)
     if r[0] == "map_err":
         return okval(r[1])
     if r[0] == "agg" and r[2] == "core::result::Result" and r[3] == "Ok":
